@@ -2,22 +2,23 @@
     mutations produces a graph whose directed edges contain a cycle; the offending call is
     refused with CyclicConnectionError (ECyclic) and an acyclicity-preserving one is accepted.
 
-    1. [cycle_check]        : the stack loop of _assert_node_does_not_depend_on_itself decides
-                              "d lies on a directed cycle" within its fuel (no premise).
-    2. [acyclic_step_gen], [acyclic_run_gen] (Section WithInv, premise: the invariant is
-                              preserved by every step, [inv_step_statement]).
-    3. [add_edge_cyclic_iff_gen] (same premise).
-    4. [is_dag_spec]        : characterisation of is_dag (no premise, no acyclicity hypothesis).
+    1. [cycle_check]         : the stack loop of _assert_node_does_not_depend_on_itself decides
+                               "d lies on a directed cycle" within its fuel.
+    2. [acyclic_step], [acyclic_run], [acyclic_run_from] : validated mutations keep the
+                               directed part acyclic (all 15 operations, both classes).
+    3. [add_edge_cyclic_iff] : a directed add between existing unconnected nodes is refused
+                               with ECyclic iff it closes a cycle, accepted otherwise.
+    4. [is_dag_spec]         : characterisation of is_dag (no acyclicity hypothesis).
 
-    The ONLY premise of the Section is [Hinv_step : inv_step_statement parse fmt], exactly the
-    statement proved in GraphInvProofs.v; each [_gen] theorem is closed by one application. *)
+    All theorems are CLOSED (no Section premise; GraphInvProofs.v is not needed): the proofs
+    carry the small invariant [CInv] of GraphAcyclicLemmas.v, which [Inv] implies. *)
 From Coq Require Import Relations.Relation_Operators.
 From CG Require Import Base Digraph DigraphProofs Graph GraphObs GraphInv GraphAcyclicLemmas.
 
 (** * 1. The cycle check *)
 
 Theorem cycle_check parse : cycle_check_statement parse.
-Proof. intros k g d HI Hd. exact (depends_on_itself_spec HI d Hd). Qed.
+Proof. intros k g d HI Hd. exact (depends_on_itself_spec (inv_ccinv _ _ _ HI) d Hd). Qed.
 
 (** * 4. is_dag *)
 
@@ -63,93 +64,89 @@ Proof.
   intros v Hp. apply path_first in Hp. destruct Hp as (z & Harc & _). exact Harc.
 Qed.
 
-Section WithInv.
+(** The development below carries the small invariant [CInv] of GraphAcyclicLemmas.v (implied
+    by [Inv], preserved by every primitive) instead of the full [Inv], so NO premise about
+    GraphInvProofs is needed: all theorems are closed. *)
+Section Acyclic.
   Variable parse : name -> option (name * Z).
   Variable fmt : name -> Z -> option name.
 
-  (** the one premise: GraphInvProofs.inv_step *)
-  Hypothesis Hinv_step : inv_step_statement parse fmt.
-
-  Lemma inv_add_edge' k g sp dp ty m v :
-    Inv parse k g -> Inv parse k (snd (add_edge parse k g sp dp ty m v)).
-  Proof. intros HI. exact (Hinv_step k g (OAddEdge sp dp ty m v) HI). Qed.
-
-  Lemma inv_delete_edge' k g s d oty g' :
-    Inv parse k g -> delete_edge g s d oty = Ok g' -> Inv parse k g'.
-  Proof.
-    intros HI H. pose proof (Hinv_step k g (ODeleteEdge s d oty) HI) as H'.
-    unfold step, run_op in H'. rewrite H in H'. exact H'.
-  Qed.
-
-  Lemma inv_delete_node' k g id g' :
-    Inv parse k g -> delete_node k g id = Ok g' -> Inv parse k g'.
-  Proof.
-    intros HI H. pose proof (Hinv_step k g (ODeleteNode id) HI) as H'.
-    unfold step, run_op in H'. rewrite H in H'. exact H'.
-  Qed.
-
-  Lemma inv_add_node_id' k g id vt m g' :
-    Inv parse k g -> add_node_id parse k g id vt m = Ok g' -> Inv parse k g'.
-  Proof.
-    intros HI H. pose proof (Hinv_step k g (OAddNode id vt m) HI) as H'.
-    unfold step, run_op in H'. rewrite H in H'. exact H'.
-  Qed.
-
-  Definition Good (k : kind) (g : graph) : Prop := Inv parse k g /\ Acyclic g.
+  Definition Good (g : graph) : Prop := CInv g /\ Acyclic g.
 
   (** the shape of every (result, state left behind) pair met below *)
-  Definition StepOK (k : kind) (r : res graph * graph) : Prop :=
-    Good k (snd r) /\ (forall g', fst r = Ok g' -> g' = snd r).
+  Definition StepOK (r : res graph * graph) : Prop :=
+    Good (snd r) /\ (forall g', fst r = Ok g' -> g' = snd r).
 
-  Lemma stepok_same k g : Good k g -> StepOK k (Ok g, g).
+  Lemma stepok_same g : Good g -> StepOK (Ok g, g).
   Proof. intros H. split; [exact H|]. cbn. intros g' [= <-]. reflexivity. Qed.
 
-  Lemma stepok_err k g x : Good k g -> StepOK k (Err x, g).
+  Lemma stepok_err g x : Good g -> StepOK (Err x, g).
   Proof. intros H. split; [exact H|]. cbn. discriminate. Qed.
+
+  Lemma stepok_lift g r :
+    Good g -> (forall g', r = Ok g' -> Good g') -> StepOK (lift g r).
+  Proof.
+    intros HG H. destruct r as [g'|x]; cbn [lift];
+      [apply stepok_same, H; reflexivity|apply stepok_err, HG].
+  Qed.
 
   (** (b) validated add_edge *)
   Lemma good_add_edge k g sp dp ty m :
-    Good k g -> StepOK k (add_edge parse k g sp dp ty m true).
+    Good g -> StepOK (add_edge parse k g sp dp ty m true).
   Proof.
-    intros [HI Hac].
-    pose proof (inv_add_edge' k g sp dp ty m true HI) as HIl.
+    intros [HC Hac].
+    pose proof (cinv_add_edge parse k g sp dp ty m true HC) as HCl.
     destruct (add_edge parse k g sp dp ty m true) as [r gl] eqn:H.
-    cbn [snd] in HIl.
+    cbn [snd] in HCl.
     pose proof (add_edge_shape _ _ _ _ _ _ _ _ _ _ H) as Hs.
     destruct r as [g'|x].
-    - destruct Hs as [-> Hadd]. apply stepok_same. split; [exact HIl|].
-      eapply added_edge_acyclic; eassumption.
-    - apply stepok_err. split; [exact HIl|].
+    - destruct Hs as [-> Hadd]. apply stepok_same. split; [exact HCl|].
+      eapply added_edge_acyclic_c; eassumption.
+    - apply stepok_err. split; [exact HCl|].
       eapply sub_arcs_acyclic; [apply incl_sub_arcs, Hs|exact Hac].
   Qed.
 
   (** (a) deletions and node additions *)
-  Lemma good_delete_edge k g s d oty g' :
-    Good k g -> delete_edge g s d oty = Ok g' -> Good k g'.
+  Lemma good_delete_edge g s d oty g' :
+    Good g -> delete_edge g s d oty = Ok g' -> Good g'.
   Proof.
-    intros [HI Hac] H. split; [eapply inv_delete_edge'; eassumption|].
+    intros [HC Hac] H. split; [eapply cinv_delete_edge; eassumption|].
     eapply sub_arcs_acyclic; [apply incl_sub_arcs; eapply delete_edge_incl; exact H|exact Hac].
   Qed.
 
   Lemma good_delete_node k g id g' :
-    Good k g -> delete_node k g id = Ok g' -> Good k g'.
+    Good g -> delete_node k g id = Ok g' -> Good g'.
   Proof.
-    intros [HI Hac] H. split; [eapply inv_delete_node'; eassumption|].
+    intros [HC Hac] H. split; [eapply cinv_delete_node; eassumption|].
     eapply sub_arcs_acyclic; [apply incl_sub_arcs; eapply delete_node_incl; exact H|exact Hac].
   Qed.
 
   Lemma good_add_node_id k g id vt m g' :
-    Good k g -> add_node_id parse k g id vt m = Ok g' -> Good k g'.
+    Good g -> add_node_id parse k g id vt m = Ok g' -> Good g'.
   Proof.
-    intros [HI Hac] H. split; [eapply inv_add_node_id'; eassumption|].
+    intros [HC Hac] H. split; [exact (proj1 (add_node_id_c _ _ _ _ _ _ _ HC H))|].
     eapply gsrc_eq_acyclic; [eapply add_node_id_gsrc; exact H|exact Hac].
   Qed.
 
+  Lemma good_add_node_obj k g id vt m g' :
+    Good g -> add_node_obj parse k g id vt m = Ok g' -> Good g'.
+  Proof.
+    intros [HC Hac] H. split; [exact (proj1 (add_node_obj_c _ _ _ _ _ _ _ HC H))|].
+    eapply gsrc_eq_acyclic; [eapply add_node_obj_gsrc; exact H|exact Hac].
+  Qed.
+
+  Lemma good_add_node_vl k g v l vt m g' :
+    Good g -> add_node_vl parse fmt k g v l vt m = Ok g' -> Good g'.
+  Proof.
+    intros HG. unfold add_node_vl. destruct k; [discriminate|].
+    destruct (fmt v l) as [id|]; [|discriminate]. apply good_add_node_id, HG.
+  Qed.
+
   (** (c) sequential composition *)
-  Lemma fold_good k (X : Type) (f : res graph * graph -> X -> res graph * graph) :
-    (forall g' x, Good k g' -> StepOK k (f (Ok g', g') x)) ->
+  Lemma fold_good (X : Type) (f : res graph * graph -> X -> res graph * graph) :
+    (forall g' x, Good g' -> StepOK (f (Ok g', g') x)) ->
     (forall e gl x, f (Err e, gl) x = (Err e, gl)) ->
-    forall l acc, StepOK k acc -> StepOK k (fold_left f l acc).
+    forall l acc, StepOK acc -> StepOK (fold_left f l acc).
   Proof.
     intros Hok Herr. induction l as [|x l IH]; intros acc Hacc; cbn [fold_left]; [exact Hacc|].
     apply IH. destruct acc as [[g'|e] gl].
@@ -158,7 +155,7 @@ Section WithInv.
     - rewrite Herr. exact Hacc.
   Qed.
 
-  Lemma good_add_nodes_from k g ids : Good k g -> StepOK k (add_nodes_from parse k g ids).
+  Lemma good_add_nodes_from k g ids : Good g -> StepOK (add_nodes_from parse k g ids).
   Proof.
     intros HG. unfold add_nodes_from. apply fold_good.
     - intros g' id HG'. destruct (add_node_id parse k g' id VUnspec None) as [g''|x] eqn:E.
@@ -169,7 +166,7 @@ Section WithInv.
   Qed.
 
   Lemma good_add_edges_from k g pairs :
-    Good k g -> StepOK k (add_edges_from parse k g pairs true).
+    Good g -> StepOK (add_edges_from parse k g pairs true).
   Proof.
     intros HG. unfold add_edges_from. apply fold_good.
     - intros g' p HG'. apply good_add_edge, HG'.
@@ -177,7 +174,7 @@ Section WithInv.
     - apply stepok_same, HG.
   Qed.
 
-  Lemma good_add_path k g p : Good k g -> StepOK k (add_path parse k g p true).
+  Lemma good_add_path k g p : Good g -> StepOK (add_path parse k g p true).
   Proof.
     intros HG. unfold add_path. destruct p as [|a p]; [apply stepok_err, HG|].
     apply fold_good.
@@ -188,7 +185,7 @@ Section WithInv.
     - apply stepok_same, HG.
   Qed.
 
-  Lemma good_add_paths k g ps : Good k g -> StepOK k (add_paths parse k g ps).
+  Lemma good_add_paths k g ps : Good g -> StepOK (add_paths parse k g ps).
   Proof.
     intros HG. unfold add_paths. destruct ps as [|p ps]; [apply stepok_err, HG|].
     apply fold_good.
@@ -197,7 +194,7 @@ Section WithInv.
     - apply stepok_same, HG.
   Qed.
 
-  Lemma good_seq_edges k g calls : Good k g -> StepOK k (seq_edges parse k g calls).
+  Lemma good_seq_edges k g calls : Good g -> StepOK (seq_edges parse k g calls).
   Proof.
     intros HG. unfold seq_edges. apply fold_good.
     - intros g' [[[sp dp] ty] m] HG'. apply good_add_edge, HG'.
@@ -206,25 +203,12 @@ Section WithInv.
   Qed.
 
   Lemma good_add_time_edge k g sv st dv dt m :
-    Good k g -> StepOK k (add_time_edge parse fmt k g sv st dv dt m true).
+    Good g -> StepOK (add_time_edge parse fmt k g sv st dv dt m true).
   Proof.
     intros HG. unfold add_time_edge. destruct k; [apply stepok_err, HG|].
     destruct (fmt sv st) as [s|]; [|apply stepok_err, HG].
     destruct (fmt dv dt) as [d|]; [|apply stepok_err, HG].
     apply good_add_edge, HG.
-  Qed.
-
-  (** the unvalidated RESTORE of an edge of the original (acyclic) graph *)
-  Lemma restore_sub_arcs k g g2 e r3 g3 :
-    In e (gsrc g) -> sub_arcs g2 g ->
-    add_edge parse k g2 (str_ep (esrc e)) (str_ep (edst e)) (ety e) (Some (emeta e)) false
-      = (r3, g3) ->
-    sub_arcs g3 g.
-  Proof.
-    intros Hin Hsub H a b Hab.
-    destruct (add_edge_arcs _ _ _ _ _ _ _ _ _ _ H a b Hab) as [H2|(Hty & -> & ->)].
-    - apply Hsub, H2.
-    - cbn [str_ep fst]. apply arc_dgraph. exists e. repeat split; assumption.
   Qed.
 
   Lemma add_edge_ok_snd k g sp dp ty m v g' gl :
@@ -234,66 +218,86 @@ Section WithInv.
     symmetry. exact (proj1 Hs).
   Qed.
 
-  Lemma acyclic_change_edge_type k g s d ty :
-    Good k g -> Acyclic (snd (change_edge_type parse k g s d ty)).
+  (** the unvalidated RESTORE of an edge of the original (acyclic) graph: the state reached
+      has no arc the original graph did not have *)
+  Lemma good_restore k g g2 e r3 g3 :
+    Acyclic g -> In e (gsrc g) -> CInv g2 -> sub_arcs g2 g ->
+    add_edge parse k g2 (str_ep (esrc e)) (str_ep (edst e)) (ety e) (Some (emeta e)) false
+      = (r3, g3) ->
+    Good g3.
   Proof.
-    intros HG. pose proof HG as [HI Hac]. unfold change_edge_type.
-    destruct (edge_at g s d) as [e|] eqn:Ee; [|exact Hac].
+    intros Hac Hin HC2 Hsub H. split.
+    - pose proof (cinv_add_edge parse k g2 (str_ep (esrc e)) (str_ep (edst e)) (ety e)
+                    (Some (emeta e)) false HC2) as X. rewrite H in X. exact X.
+    - apply (sub_arcs_acyclic g3 g); [|exact Hac]. intros a b Hab.
+      destruct (add_edge_arcs _ _ _ _ _ _ _ _ _ _ H a b Hab) as [H2|(Hty & -> & ->)].
+      + apply Hsub, H2.
+      + cbn [str_ep fst]. apply arc_dgraph. exists e. repeat split; assumption.
+  Qed.
+
+  Lemma good_change_edge_type k g s d ty :
+    Good g -> Good (snd (change_edge_type parse k g s d ty)).
+  Proof.
+    intros HG. pose proof HG as [HC Hac]. unfold change_edge_type.
+    destruct (edge_at g s d) as [e|] eqn:Ee; [|exact HG].
     destruct (find_edge_some _ _ _ _ Ee) as (Hein & <- & <-).
-    destruct (etype_eqb (ety e) ty); [exact Hac|].
-    destruct (delete_edge g (esrc e) (edst e) (Some (ety e))) as [g1|x] eqn:Ed; [|exact Hac].
-    pose proof (good_delete_edge _ _ _ _ _ _ HG Ed) as HG1.
+    destruct (etype_eqb (ety e) ty); [exact HG|].
+    destruct (delete_edge g (esrc e) (edst e) (Some (ety e))) as [g1|x] eqn:Ed; [|exact HG].
+    pose proof (good_delete_edge _ _ _ _ _ HG Ed) as HG1.
     pose proof (good_add_edge k g1 (str_ep (esrc e)) (str_ep (edst e)) ty (Some (emeta e)) HG1)
       as HS.
     destruct (add_edge parse k g1 (str_ep (esrc e)) (str_ep (edst e)) ty (Some (emeta e)) true)
       as [r g2] eqn:Ea.
-    destruct HS as [[HI2 Hac2] Heq]. cbn [fst snd] in HI2, Hac2, Heq.
+    destruct HS as [HG2 Heq]. cbn [fst snd] in HG2, Heq.
     destruct r as [g2'|x].
-    - cbn [snd]. rewrite (Heq g2' eq_refl). exact Hac2.
+    - cbn [snd]. rewrite (Heq g2' eq_refl). exact HG2.
     - pose proof (add_edge_shape _ _ _ _ _ _ _ _ _ _ Ea) as Hs. cbn beta iota in Hs.
       assert (Hsub2 : sub_arcs g2 g).
       { apply incl_sub_arcs. eapply incl_tran; [exact Hs|]. eapply delete_edge_incl; exact Ed. }
       destruct (add_edge parse k g2 (str_ep (esrc e)) (str_ep (edst e)) (ety e)
                   (Some (emeta e)) false) as [r3 g3] eqn:Er.
-      pose proof (restore_sub_arcs _ _ _ _ _ _ Hein Hsub2 Er) as Hsub3.
+      pose proof (good_restore _ _ _ _ _ _ Hac Hein (proj1 HG2) Hsub2 Er) as HG3.
       destruct r3 as [g3'|y]; cbn [snd]; [rewrite (add_edge_ok_snd _ _ _ _ _ _ _ _ _ Er)|];
-        eapply sub_arcs_acyclic; eassumption.
+        exact HG3.
   Qed.
 
-  Lemma acyclic_replace_edge k g s d s' d' oty om :
-    Good k g -> Acyclic (snd (replace_edge parse k g s d s' d' oty om)).
+  Lemma good_replace_edge k g s d s' d' oty om :
+    Good g -> Good (snd (replace_edge parse k g s d s' d' oty om)).
   Proof.
-    intros HG. pose proof HG as [HI Hac]. unfold replace_edge.
-    destruct (edge_at g s d) as [e|] eqn:Ee; [|exact Hac].
+    intros HG. pose proof HG as [HC Hac]. unfold replace_edge.
+    destruct (edge_at g s d) as [e|] eqn:Ee; [|exact HG].
     destruct (find_edge_some _ _ _ _ Ee) as (Hein & <- & <-).
-    destruct (edge_at g s' d'); [exact Hac|].
-    destruct (delete_edge g (esrc e) (edst e) None) as [g1|x] eqn:Ed; [|exact Hac].
-    pose proof (good_delete_edge _ _ _ _ _ _ HG Ed) as HG1.
+    destruct (edge_at g s' d'); [exact HG|].
+    destruct (delete_edge g (esrc e) (edst e) None) as [g1|x] eqn:Ed; [|exact HG].
+    pose proof (good_delete_edge _ _ _ _ _ HG Ed) as HG1.
     match goal with |- context [add_edge parse k g1 ?sp ?dp ?ty ?m true] =>
       pose proof (good_add_edge k g1 sp dp ty m HG1) as HS;
       destruct (add_edge parse k g1 sp dp ty m true) as [r g2] eqn:Ea end.
-    destruct HS as [[HI2 Hac2] Heq]. cbn [fst snd] in HI2, Hac2, Heq.
+    destruct HS as [HG2 Heq]. cbn [fst snd] in HG2, Heq.
     destruct r as [g2'|x].
-    - cbn [snd]. rewrite (Heq g2' eq_refl). exact Hac2.
+    - cbn [snd]. rewrite (Heq g2' eq_refl). exact HG2.
     - pose proof (add_edge_shape _ _ _ _ _ _ _ _ _ _ Ea) as Hs. cbn beta iota in Hs.
       assert (Hsub2 : sub_arcs g2 g).
       { apply incl_sub_arcs. eapply incl_tran; [exact Hs|]. eapply delete_edge_incl; exact Ed. }
       destruct (add_edge parse k g2 (str_ep (esrc e)) (str_ep (edst e)) (ety e)
                   (Some (emeta e)) false) as [r3 g3] eqn:Er.
-      pose proof (restore_sub_arcs _ _ _ _ _ _ Hein Hsub2 Er) as Hsub3.
+      pose proof (good_restore _ _ _ _ _ _ Hac Hein (proj1 HG2) Hsub2 Er) as HG3.
       destruct r3 as [g3'|y]; cbn [snd]; [rewrite (add_edge_ok_snd _ _ _ _ _ _ _ _ _ Er)|];
-        eapply sub_arcs_acyclic; eassumption.
+        exact HG3.
   Qed.
 
-  Lemma acyclic_replace_node_base k g id new_id vt m :
-    Good k g -> Acyclic (snd (replace_node_base parse k g id new_id vt m)).
+  Lemma good_replace_node_base k g id new_id vt m :
+    Good g -> Good (snd (replace_node_base parse k g id new_id vt m)).
   Proof.
-    intros HG. pose proof HG as [HI Hac]. unfold replace_node_base.
-    destruct (get_node g id) as [n|]; [|exact Hac].
-    destruct new_id as [id'|]; [|exact Hac].
-    destruct (node_exists g id'); [exact Hac|].
+    intros HG. pose proof HG as [HC Hac]. unfold replace_node_base.
+    destruct (get_node g id) as [n|] eqn:En0; [|exact HG].
+    destruct new_id as [id'|].
+    2:{ cbn [snd]. split.
+        - apply (cinv_inplace g id n); [exact HC|exact En0|reflexivity|reflexivity].
+        - apply (gsrc_eq_acyclic _ g); [reflexivity|exact Hac]. }
+    destruct (node_exists g id'); [exact HG|].
     match goal with |- context [add_node_id parse k g id' ?a ?b] =>
-      destruct (add_node_id parse k g id' a b) as [g1|x] eqn:En end; [|exact Hac].
+      destruct (add_node_id parse k g id' a b) as [g1|x] eqn:En end; [|exact HG].
     pose proof (good_add_node_id _ _ _ _ _ _ HG En) as HG1.
     match goal with |- context [seq_edges parse k g1 ?c] =>
       pose proof (good_seq_edges k g1 c HG1) as HS;
@@ -302,70 +306,75 @@ Section WithInv.
     destruct r as [g2'|x].
     - rewrite (Heq g2' eq_refl).
       destruct (delete_node k g2 id) as [g3|y] eqn:Edn; cbn [snd].
-      + exact (proj2 (good_delete_node _ _ _ _ HG2 Edn)).
-      + exact (proj2 HG2).
+      + exact (good_delete_node _ _ _ _ HG2 Edn).
+      + exact HG2.
     - destruct (delete_node k g2 id') as [g3|y] eqn:Edn; cbn [snd].
-      + exact (proj2 (good_delete_node _ _ _ _ HG2 Edn)).
-      + exact (proj2 HG2).
+      + exact (good_delete_node _ _ _ _ HG2 Edn).
+      + exact HG2.
   Qed.
 
-  Lemma acyclic_replace_node k g id new_id lag var vt m :
-    Good k g -> Acyclic (snd (replace_node parse fmt k g id new_id lag var vt m)).
+  Lemma good_replace_node k g id new_id lag var vt m :
+    Good g -> Good (snd (replace_node parse fmt k g id new_id lag var vt m)).
   Proof.
-    intros HG. pose proof HG as [HI Hac]. unfold replace_node. destruct k.
-    - destruct lag, var; try exact Hac. apply acyclic_replace_node_base, HG.
+    intros HG. unfold replace_node. destruct k.
+    - destruct lag, var; try exact HG. apply good_replace_node_base, HG.
     - match goal with |- context [match ?R with Ok nid' => _ | Err x => (Err x, g) end] =>
-        destruct R as [nid'|x] eqn:ER end; [|exact Hac].
+        destruct R as [nid'|x] eqn:ER end; [|exact HG].
       match goal with |- context [match ?R with Ok m' => _ | Err x => (Err x, g) end] =>
-        destruct R as [m'|x] eqn:EM end; [|exact Hac].
-      apply acyclic_replace_node_base, HG.
+        destruct R as [m'|x] eqn:EM end; [|exact HG].
+      apply good_replace_node_base, HG.
   Qed.
 
-  Lemma acyclic_lift g r :
-    Acyclic g -> (forall g', r = Ok g' -> Acyclic g') -> Acyclic (snd (lift g r)).
-  Proof. intros Hac H. destruct r as [g'|x]; cbn [lift snd]; [apply H; reflexivity|exact Hac]. Qed.
-
-  Theorem acyclic_step_gen : acyclic_step_statement parse fmt.
+  (** every validated operation keeps (CInv and) acyclicity *)
+  Lemma good_step k g o : Good g -> validated o = true -> Good (step parse fmt k g o).
   Proof.
-    intros k g o HI Hac Hv. assert (HG : Good k g) by (split; assumption).
-    unfold step. destruct o; cbn [run_op validated] in *; try subst validate.
-    - apply acyclic_lift; [exact Hac|]. intros g' H.
-      eapply gsrc_eq_acyclic; [eapply add_node_id_gsrc; exact H|exact Hac].
-    - apply acyclic_lift; [exact Hac|]. intros g' H.
-      eapply gsrc_eq_acyclic; [eapply add_node_obj_gsrc; exact H|exact Hac].
-    - apply acyclic_lift; [exact Hac|]. intros g' H.
-      eapply gsrc_eq_acyclic; [eapply add_node_vl_gsrc; exact H|exact Hac].
-    - exact (proj2 (proj1 (good_add_nodes_from k g ids HG))).
-    - exact (proj2 (proj1 (good_add_edges_from k g _ HG))).
-    - apply acyclic_lift; [exact Hac|]. intros g' H.
-      exact (proj2 (good_delete_node _ _ _ _ HG H)).
-    - apply acyclic_replace_node, HG.
-    - exact (proj2 (proj1 (good_add_edge k g sp dp ty m HG))).
-    - exact (proj2 (proj1 (good_add_edges_from k g pairs HG))).
-    - exact (proj2 (proj1 (good_add_path k g path HG))).
-    - exact (proj2 (proj1 (good_add_paths k g paths HG))).
-    - exact (proj2 (proj1 (good_add_time_edge k g sv st dv dt m HG))).
-    - apply acyclic_lift; [exact Hac|]. intros g' H.
-      exact (proj2 (good_delete_edge _ _ _ _ _ _ HG H)).
-    - apply acyclic_change_edge_type, HG.
-    - apply acyclic_replace_edge, HG.
+    intros HG Hv. unfold step. destruct o; cbn [run_op validated] in *; try subst validate.
+    - apply stepok_lift; [exact HG|]. intros g' H. eapply good_add_node_id; eassumption.
+    - apply stepok_lift; [exact HG|]. intros g' H. eapply good_add_node_obj; eassumption.
+    - apply stepok_lift; [exact HG|]. intros g' H. eapply good_add_node_vl; eassumption.
+    - exact (proj1 (good_add_nodes_from k g ids HG)).
+    - exact (proj1 (good_add_edges_from k g _ HG)).
+    - apply stepok_lift; [exact HG|]. intros g' H. eapply good_delete_node; eassumption.
+    - apply good_replace_node, HG.
+    - exact (proj1 (good_add_edge k g sp dp ty m HG)).
+    - exact (proj1 (good_add_edges_from k g pairs HG)).
+    - exact (proj1 (good_add_path k g path HG)).
+    - exact (proj1 (good_add_paths k g paths HG)).
+    - exact (proj1 (good_add_time_edge k g sv st dv dt m HG)).
+    - apply stepok_lift; [exact HG|]. intros g' H. eapply good_delete_edge; eassumption.
+    - apply good_change_edge_type, HG.
+    - apply good_replace_edge, HG.
+  Qed.
+
+  Theorem acyclic_step : acyclic_step_statement parse fmt.
+  Proof.
+    intros k g o HI Hac Hv.
+    exact (proj2 (good_step k g o (conj (inv_cinv _ _ _ HI) Hac) Hv)).
   Qed.
 
   Lemma good_run k ops : forall g,
-    Good k g -> forallb validated ops = true -> Good k (run parse fmt k ops g).
+    Good g -> forallb validated ops = true -> Good (run parse fmt k ops g).
   Proof.
     induction ops as [|o ops IH]; intros g HG Hv; cbn [run fold_left]; [exact HG|].
     cbn [forallb] in Hv. apply andb_true_iff in Hv. destruct Hv as [Ho Hv].
-    apply IH; [|exact Hv]. destruct HG as [HI Hac]. split.
-    - apply Hinv_step, HI.
-    - apply acyclic_step_gen; assumption.
+    apply IH; [|exact Hv]. apply good_step; assumption.
   Qed.
 
-  Theorem acyclic_run_gen : acyclic_run_statement parse fmt.
+  Theorem acyclic_run : acyclic_run_statement parse fmt.
   Proof.
     intros k ops m Hv. apply (good_run k ops); [|exact Hv].
-    split; [apply inv_empty|apply acyclic_empty].
+    split; [apply cinv_empty|apply acyclic_empty].
   Qed.
+
+  (** the same from any state satisfying the invariant (not only the empty graph) *)
+  Theorem acyclic_run_from k g ops :
+    Inv parse k g -> Acyclic g -> forallb validated ops = true ->
+    Acyclic (run parse fmt k ops g).
+  Proof.
+    intros HI Hac Hv. apply (good_run k ops); [|exact Hv].
+    split; [exact (inv_cinv _ _ _ HI)|exact Hac].
+  Qed.
+
   (** * 3. A directed add between existing, unconnected nodes is refused iff it closes a cycle *)
 
   Definition new_dir_edge (s d : name) (m : option meta) : edge :=
@@ -409,22 +418,22 @@ Section WithInv.
     destruct (delete_edge _ s d None); reflexivity.
   Qed.
 
-  Theorem add_edge_cyclic_iff_gen : add_edge_cyclic_iff_statement parse fmt.
+  Theorem add_edge_cyclic_iff : add_edge_cyclic_iff_statement parse fmt.
   Proof.
     intros k g s d m HI Hac Hs Hd Hsd Hds Hne Hts.
-    pose proof (add_edge_try_existing k g s d m false Hs Hd Hsd Hds Hne Hts) as Hf.
     pose proof (add_edge_try_existing k g s d m true Hs Hd Hsd Hds Hne Hts) as Ht.
-    cbv zeta in Hf, Ht.
+    cbv zeta in Ht.
     remember (insert_edge g (new_dir_edge s d m)) as g1 eqn:Eg1.
     assert (Hg1 : gsrc g1 = gsrc g ++ [new_dir_edge s d m]) by (subst g1; reflexivity).
-    (* the intermediate state satisfies the invariant: it is what the unvalidated add leaves *)
-    assert (HI1 : Inv parse k g1).
-    { pose proof (inv_add_edge' k g (str_ep s) (str_ep d) Dir m false HI) as H.
-      unfold add_edge in H. rewrite Hf in H. exact H. }
+    (* the intermediate state of _set_edge satisfies what the cycle check needs *)
+    assert (HC1 : CCInv g1).
+    { subst g1. apply ccinv_insert_edge; [exact (inv_ccinv _ _ _ HI)|exact Hs]. }
+    assert (Hids : node_ids g1 = node_ids g) by (subst g1; apply insert_edge_ids).
+    assert (Hs1 : In s (node_ids g1)) by (rewrite Hids; exact Hs).
+    assert (Hd1 : In d (node_ids g1)) by (rewrite Hids; exact Hd).
     assert (He1 : In (new_dir_edge s d m) (gsrc g1)).
     { rewrite Hg1. apply in_or_app; right; left; reflexivity. }
-    destruct (inv_endpoints HI1 _ He1) as [Hs1 Hd1]. cbn [new_dir_edge esrc edst] in Hs1, Hd1.
-    destruct (depends_on_itself_spec HI1 d Hd1) as (b & Hb & Hiff).
+    destruct (depends_on_itself_spec HC1 d Hd1) as (b & Hb & Hiff).
     assert (Hcyc : path (dgraph g1) d d <-> path (dgraph g) d s).
     { assert (Hext : forall a b, arc (dgraph g1) a b <-> arc (add_arc (dgraph g) s d) a b).
       { intros a c. rewrite (arc_app g g1 _ Hg1), add_arc_arc. cbn [new_dir_edge ety esrc edst].
@@ -456,7 +465,7 @@ Section WithInv.
     - intros _ Hp. apply Hcyc, Hiff in Hp. discriminate.
     - reflexivity.
   Qed.
-End WithInv.
+End Acyclic.
 
 (** * Non-vacuity and behaviour pinned to the implementation (checked against /repo:
       CausalGraph and TimeSeriesCausalGraph both print CyclicConnectionError / is_dag as below) *)
@@ -534,12 +543,8 @@ Example ex_dep_loop :
   /\ depends_on_itself (ex_chain Plain) nc = Some false.
 Proof. vm_compute. split; reflexivity. Qed.
 
-(** The hypotheses of the theorems are satisfiable by a non-trivial state: the chain and the
-    unvalidated 3-cycle satisfy [Inv] (proved directly, without the Section premise). *)
-Lemma in3 {A} (P : A -> Prop) (x y z : A) l :
-  P x -> P y -> P z -> (forall e, In e l -> P e) -> forall e, In e (x :: y :: z :: l) -> P e.
-Proof. intros Hx Hy Hz Hl e [<-|[<-|[<-|H]]]; auto. Qed.
-
+(** The hypotheses of the theorems are satisfiable by non-trivial states: the chain and the
+    unvalidated 3-cycle satisfy [Inv] (proved directly from the definition). *)
 Example ex_chain_inv : Inv parse Plain (ex_chain Plain).
 Proof.
   constructor; try discriminate.
@@ -582,3 +587,78 @@ Proof.
   apply (proj1 (desc_spec name_eqb name_eqb_spec na nc (dgraph_wf ex_chain_inv))).
   vm_compute. tauto.
 Qed.
+
+(** the theorems at the verified name codec *)
+Example acyclic_step_names : acyclic_step_statement parse fmt := acyclic_step parse fmt.
+Example acyclic_run_names : acyclic_run_statement parse fmt := acyclic_run parse fmt.
+Example add_edge_cyclic_iff_names : add_edge_cyclic_iff_statement parse fmt :=
+  add_edge_cyclic_iff parse fmt.
+
+(** [acyclic_step] applies to the refused call, [add_edge_cyclic_iff] DERIVES the refusal of
+    c -> a (path a ->* c) and the acceptance of a -> c (no path c ->* a) *)
+Example ex_step_applies :
+  Acyclic (step parse fmt Plain (ex_chain Plain) (ex_add nc na Dir true)).
+Proof. apply acyclic_step; [exact ex_chain_inv|exact ex_chain_acyclic|reflexivity]. Qed.
+
+Example ex_iff_applies :
+  outcome parse fmt Plain (ex_chain Plain) (ex_add nc na Dir true) = Some ECyclic
+  /\ outcome parse fmt Plain (ex_chain Plain) (ex_add na nc Dir true) = None.
+Proof.
+  destruct ex_iff_premises as (Hc & Ha & Hca & Hac & Hne & Hp).
+  split.
+  - apply (add_edge_cyclic_iff parse fmt Plain (ex_chain Plain) nc na None
+             ex_chain_inv ex_chain_acyclic Hc Ha Hca Hac Hne); [discriminate|exact Hp].
+  - apply (add_edge_cyclic_iff parse fmt Plain (ex_chain Plain) na nc None
+             ex_chain_inv ex_chain_acyclic Ha Hc Hac Hca); [congruence|discriminate|].
+    intros Hp'. exact (ex_chain_acyclic na (t_trans _ _ _ _ _ Hp Hp')).
+Qed.
+
+(** a validated history from the empty graph in which one call is refused: still acyclic *)
+Example ex_run_applies :
+  Acyclic (run parse fmt TS
+             [ex_add na nb Dir true; ex_add nb nc Dir true; ex_add nc na Dir true;
+              OChangeEdgeType na nb Und; OAddPaths [[nc; na]; [na; nb]]]
+             (empty_graph [])).
+Proof. apply acyclic_run. reflexivity. Qed.
+
+(** the unvalidated 3-cycle also satisfies [Inv]; [is_dag_spec] (which has no acyclicity
+    hypothesis) turns the computed [false] into "not acyclic", although every edge is directed *)
+Definition ex_cyc3 : graph := step parse fmt Plain (ex_chain Plain) (ex_add nc na Dir false).
+
+Example ex_cyc3_inv : Inv parse Plain ex_cyc3.
+Proof.
+  constructor; try discriminate.
+  - vm_compute. repeat constructor; simpl; intuition discriminate.
+  - vm_compute. apply Permutation_refl.
+  - vm_compute. repeat constructor; simpl; intuition discriminate.
+  - vm_compute. intros e [<-|[<-|[<-|[]]]]; simpl; intuition.
+  - vm_compute. intros e [<-|[<-|[<-|[]]]]; simpl; discriminate.
+  - vm_compute. intros e [<-|[<-|[<-|[]]]]; simpl; intuition discriminate.
+  - vm_compute. intros n [<-|[<-|[<-|[]]]]; apply Permutation_refl.
+  - vm_compute. intros n [<-|[<-|[<-|[]]]]; apply Permutation_refl.
+  - intros _. vm_compute. split; reflexivity.
+Qed.
+
+Example ex_cyc3_not_acyclic : ~ Acyclic ex_cyc3.
+Proof.
+  intros Hac.
+  assert (H : is_dag_model ex_cyc3 = true).
+  { apply (is_dag_spec parse Plain ex_cyc3 ex_cyc3_inv). split; [|exact Hac].
+    vm_compute. intros e [<-|[<-|[<-|[]]]]; reflexivity. }
+  vm_compute in H. discriminate.
+Qed.
+
+(** the cycle check answers [Some true] for each of the three nodes, as [cycle_check] says *)
+Example ex_cyc3_check :
+  map (depends_on_itself ex_cyc3) [na; nb; nc] = [Some true; Some true; Some true].
+Proof. vm_compute. reflexivity. Qed.
+
+(** the fuel [length gsrc + 2] is exactly what the loop needs on the chain: one unit less and
+    it would run out *)
+Example ex_fuel_tight :
+  dep_loop (length (gsrc (ex_chain Plain)) + 2) (ex_chain Plain) nc [] [nc] = Some false
+  /\ dep_loop (length (gsrc (ex_chain Plain)) + 1) (ex_chain Plain) nc [] [nc] = None.
+Proof. vm_compute. split; reflexivity. Qed.
+
+(* Print Assumptions cycle_check. acyclic_step. acyclic_run. acyclic_run_from.
+   add_edge_cyclic_iff. is_dag_spec.  — all "Closed under the global context". *)
